@@ -112,21 +112,42 @@ func (sp *SpinLock) IsLocked(key string) bool {
 func (sp *SpinLock) TryLock(lockKeys []*LockKey) ([]*LockKey, bool) {
 	succLocked := []*LockKey{}
 	for _, k := range lockKeys {
-		if lkType, occupiedByOthers := sp.m.LoadOrStore(k.key, k.lockType); occupiedByOthers {
-			if lkType == sharedLock && k.lockType == sharedLock { //读读共享
-				sp.refCounter.Add(k.key)
-				succLocked = append(succLocked, k)
-				continue
-			} else {
+		if k.lockType == sharedLock {
+			if !sp.tryLockShared(k.key) {
 				return succLocked, false //读写冲突
 			}
+			succLocked = append(succLocked, k)
+			continue
 		}
-		if k.lockType == sharedLock {
-			sp.refCounter.Add(k.key)
+		if _, occupiedByOthers := sp.m.LoadOrStore(k.key, k.lockType); occupiedByOthers {
+			return succLocked, false //读写冲突
 		}
 		succLocked = append(succLocked, k) //第一个抢到
 	}
 	return succLocked, true
+}
+
+// tryLockShared 获取共享锁. 表项的创建/加入与引用计数的增加必须和unlockShared里
+// "计数减到0并删除表项"互斥, 否则一个共享持有者可能在表项被删除的同时加入,
+// 之后互斥锁会在共享锁仍被持有时被抢到
+func (sp *SpinLock) tryLockShared(key string) bool {
+	sp.refCounter.mu.Lock()
+	defer sp.refCounter.mu.Unlock()
+	if lkType, occupiedByOthers := sp.m.LoadOrStore(key, sharedLock); occupiedByOthers && lkType != sharedLock {
+		return false
+	}
+	sp.refCounter.ctMap[key]++ //读读共享
+	return true
+}
+
+func (sp *SpinLock) unlockShared(key string) {
+	sp.refCounter.mu.Lock()
+	defer sp.refCounter.mu.Unlock()
+	sp.refCounter.ctMap[key]--
+	if sp.refCounter.ctMap[key] <= 0 {
+		delete(sp.refCounter.ctMap, key)
+		sp.m.Delete(key)
+	}
 }
 
 //Unlock release the locks on some keys
@@ -138,9 +159,7 @@ func (sp *SpinLock) Unlock(lockKeys []*LockKey) {
 		if lkType == exclusiveLock {
 			sp.m.Delete(k)
 		} else if lkType == sharedLock { //共享锁要考虑引用计数
-			if sp.refCounter.Release(k) == 0 {
-				sp.m.Delete(lockKeys[i].key)
-			}
+			sp.unlockShared(k)
 		}
 	}
 }
